@@ -731,3 +731,10 @@ impl ProbeSequence {
         self.bucket
     }
 }
+
+#[cfg(feature = "verif-hooks")]
+#[doc(hidden)]
+pub mod verif_hooks {
+    pub use super::meta_map::verif_hooks as meta_map;
+    pub use super::meta_map::MetaMap;
+}
